@@ -3,7 +3,7 @@
     Vocabulary ([wf_root], [dag_wf], [dag_fits], ...) is in DagFile/DagSpec.v and DagFile/CodecProofs.v. *)
 From Coq Require Import ZArith List Bool.
 From MT Require Import DagFile.FlattenModel DagFile.PruneModel DagFile.CodecModel DagFile.ChronoModel
-  DagFile.DagSpec DagFile.CodecProofs DagFile.FlattenProofs DagFile.Examples.
+  DagFile.DagSpec DagFile.CodecProofs DagFile.FlattenProofs DagFile.TotalsProofs DagFile.ChronoProofs DagFile.Examples.
 Import ListNotations.
 Local Open Scope Z_scope.
 
@@ -35,3 +35,44 @@ Proof. split; reflexivity. Qed.
 Example C19_wf_example_dag : gn ex_dag = 7 /\ gm ex_dag = 4 /\
   map (fun e => (eu e, ev e)) (gE ex_dag) = [(3, 4); (3, 6); (4, 2); (6, 2)].
 Proof. vm_compute. auto. Qed.
+
+(** Shrinking a dag during conversion (dr_copy_pi_dag, for EVERY contraction decision [cc] taken on the
+    nodes) succeeds, yields a well-formed dag again, keeps start clock and worker count, keeps every info
+    word of the root (all but the two string-table indices, which are re-interned), and - when the
+    recorded work totals are consistent (C18) - the sum of t_1 over the leaves of the shrunk dag is still
+    t_1 of the root, as it was before (so gen_stat's check work == T[0].info.t_1 cannot fire). *)
+Theorem C19_shrink_totals : forall cc hdr ptr sc nw t G,
+  wf_root t = true -> make_pi_dag hdr ptr sc nw t = Ok G ->
+  exists G' x0 y0,
+    copy_pi_dag cc hdr ptr G = Ok G' /\ dag_wf G' /\ gsc G' = gsc G /\ gnw G' = gnw G /\
+    nth_error (gT G) 0 = Some x0 /\ nth_error (gT G') 0 = Some y0 /\ info_eq y0 x0 /\
+    (t1_ok t = true -> leaf_t1_sum (gT G) = getf F_t1 x0 /\ leaf_t1_sum (gT G') = getf F_t1 y0).
+Proof. exact shrink_totals. Qed.
+Print Assumptions C19_shrink_totals.
+
+Example C19_shrink_example_hyp : wf_root ex_tree = true /\ t1_ok ex_tree = true /\ make_pi_dag 32 8 1000 2 ex_tree = Ok ex_dag.
+Proof. vm_compute. auto. Qed.
+Example C19_shrink_example : forall G', copy_pi_dag (fun x => getf F_kind x =? 5) 32 8 ex_dag = Ok G' ->
+  gn G' = 3 /\ gm G' = 1 /\ leaf_t1_sum (gT G') = 19.
+Proof. intros G' H. vm_compute in H. injection H as <-. vm_compute. auto. Qed.
+
+(** The chronological replay (dr_pi_dag_chronological_traverse) of EVERY well-formed dag - by C19_wf the
+    dumped dag of any recorded tree, by C19_shrink_totals any shrunk dag - for EVERY order in which the
+    event queue hands out the pending events: it terminates within 4n+1 steps without tripping an assertion,
+    every leaf goes through ready, start, last_start, end exactly once and in this order, no other node
+    gets an event, and gen_stat's counters n_running and n_ready end at 0. *)
+Theorem C19_replay : forall G, dag_wf G ->
+  forall choose, (forall st, pend st <> [] -> (choose st < length (pend st))%nat) ->
+  exists st0 st, chrono_init G = Some st0 /\
+    chrono_run (4 * length (gT G) + 1) choose G st0 = Finished st /\
+    (forall i x, nth_error (gT G) i = Some x ->
+       events_of (elog st) (Z.of_nat i) = if leaf_node x then [EV_ready; EV_start; EV_last_start; EV_end] else []) /\
+    (forall u, events_of (elog st) u <> [] -> 0 <= u < Z.of_nat (length (gT G))) /\
+    n_running (elog st) = 0 /\ n_ready (elog st) = 0.
+Proof. exact replay_ok. Qed.
+Print Assumptions C19_replay.
+
+Example C19_replay_example : exists st0 st, chrono_init ex_dag = Some st0 /\
+  chrono_run 29 choose_min ex_dag st0 = Finished st /\ length (elog st) = 16%nat /\
+  events_of (elog st) 2 = [0; 1; 2; 3] /\ events_of (elog st) 0 = [].
+Proof. vm_compute. eexists. eexists. repeat split. Qed.
